@@ -983,6 +983,12 @@ BENIGN = {
           "        x = Dropout(rate=depthwise_dropout_rate, name=name + "
           "\"_dw_dropout\")(x)\n",
           "      x = _between(x)\n", matches=2, which="all")]),
+    # the benign twin of C14-seed11: the in-place rescaling of the exported
+    # scale acts on a copy made just before it
+    "b50_export_scale_scaled_on_a_copy": dict(props=["C14", "C05"],
+                                              edits=os.path.join(
+        os.path.dirname(os.path.abspath(__file__)), "benign_patches",
+        "b50_export_scale_scaled_on_a_copy.diff")),
     # the benign twin of C03-seed9: max_value setters that re-derive the
     # exponent range correctly for both po2 classes
     "b45_po2_max_value_setters": dict(props=["C03", "C09", "C10"],
